@@ -19,7 +19,7 @@ from sim.world import environment_artefact, HarnessError, StepCap, Quiescent
 
 PROP = "C12"
 LEVEL = "fault_enumeration"
-COUNTS = {"quick": 20000, "thorough": 600000}
+COUNTS = {"quick": 15000, "thorough": 600000}
 MAX_SECONDS = {"quick": 100, "thorough": 1500}
 DET_EVERY = {"quick": 30, "thorough": 300}
 SHRINK_BUDGET = 500
@@ -147,10 +147,12 @@ class _Gen:
         r = self.rng
         kinds = [s["ctx"] for s in stack]
         open_ids = set(s["id"] for s in stack)
-        has_window = any(k in ("FullscreenWindow", "CursorAwareWindow") for k in kinds)
+        nwin = sum(1 for k in kinds if k in ("FullscreenWindow", "CursorAwareWindow"))
         choices = ["Input", "Input", "Cbreak", "Nonblocking", "Termmode"]
-        if not has_window:
+        if nwin == 0:
             choices += ["FullscreenWindow", "CursorAwareWindow"]
+        elif nwin == 1 and "FullscreenWindow" not in kinds:
+            choices += ["FullscreenWindow"]      # e.g. a full-screen pager opened from inside a CursorAwareWindow session
         cb = [s for s in stack if s["ctx"] == "Cbreak"
               and not any(t["ctx"] == "TermmodeOf" and t["of"] == s["id"] for t in stack)]
         if cb:
@@ -254,6 +256,33 @@ def gen_plan(seed, tier, index=0, avoid=()):
         for _ in range(rng.choice((1, 1, 2, 3))):
             kind = rng.choice(("Input", "Input", "FullscreenWindow", "CursorAwareWindow", "Cbreak", "Nonblocking", "Termmode"))
             tree.append(g.node(kind, [], 0))
+    if rng.random() < 0.35:
+        # an object is used a second time - in surroundings that differ from those of its first use (another
+        # nesting depth, tty attributes or status flags changed in between): what it saved the first time is stale
+        found = []
+
+        def collect(it, stack, is_ctx):
+            if is_ctx and it["ctx"] in ("Input", "Cbreak", "Nonblocking", "Termmode", "CursorAwareWindow"):
+                found.append(it)
+        _walk(tree, collect)
+        if found:
+            first = rng.choice(found)
+            g.ops = 0
+            again = {"ctx": first["ctx"], "id": first["id"], "body": []}
+            if "args" in first:
+                again["args"] = first["args"]
+            k = rng.random()
+            if k < 0.4:
+                again["body"] = g.body([again], 1)
+                tree.append(again)
+            else:
+                wrap = g.node(rng.choice(("Cbreak", "Termmode", "Nonblocking")), [], 0)
+                wrap["body"] = []
+                again["body"] = g.body([wrap, again], 2)
+                wrap["body"] = [again]
+                tree.append(wrap)
+            if rng.random() < 0.4:
+                tree.insert(len(tree) - 1, {"op": "toggle_echo"})
     if rng.random() < 0.25:
         # between two uses the application itself flips O_NONBLOCK on the stream (only outside every context:
         # what a context should restore when the flag is changed under it is not defined)
@@ -303,7 +332,9 @@ def valid(p):
             if it["id"] in ids:
                 ok[0] = False
             if it["ctx"] in ("FullscreenWindow", "CursorAwareWindow"):
-                if any(k in ("FullscreenWindow", "CursorAwareWindow") for k in kinds):
+                if it["ctx"] == "CursorAwareWindow" and any(k in ("FullscreenWindow", "CursorAwareWindow") for k in kinds):
+                    ok[0] = False
+                if it["ctx"] == "FullscreenWindow" and "FullscreenWindow" in kinds:
                     ok[0] = False
                 if it["ctx"] == "FullscreenWindow":
                     if it["id"] in seen_fs:
@@ -439,9 +470,10 @@ def _variants(p, info):
             q["crash"] = {"sigint_at_send": j, "delay": delay}
             out.append(q)
     for j in info["reading_sends"]:
-        q = planmod.clone(p)
-        q["crash"] = {"eio_at_send": j}
-        out.append(q)
+        for k in range(1, min(info.get("reads_in_send", {}).get(str(j), 1), 6) + 1):
+            q = planmod.clone(p)
+            q["crash"] = {"eio_at_send": j, "eio_read": k}      # the k-th read of the stream inside that request
+            out.append(q)
     for q in out:
         q["enumerate"] = False
     return out
@@ -503,7 +535,7 @@ class _Exec:
         self.crash = p.get("crash") or {}
         self.open_kinds = []
         self.nb0 = bool(s.tty.flags & _os.O_NONBLOCK)
-        self.info = {"blocked_sends": [], "reading_sends": []}
+        self.info = {"blocked_sends": [], "reading_sends": [], "reads_in_send": {}}
         self.callbacks = {}
         self.uses = {}            # object id -> completed enter/exit cycles
         self.kept_fds = set()     # descriptors an object kept open after its first use
@@ -518,6 +550,7 @@ class _Exec:
                 "fds": [fd for fd in k.open_fds() if fd not in self.trigger_fds],
                 "cursor_visible": t.cursor_visible,
                 "active": t.active,
+                "modes": (t.autowrap, t.top, t.bot == t.h - 1, t.pen),
                 "main": t.snapshot_screen("main"),
                 "main_cursor": (t.r, t.c, t.pending) if t.active == "main" else t.saved["main"][:3] if t.saved["main"] else None,
                 "scrollback": len(t.scrollback)}
@@ -552,7 +585,13 @@ class _Exec:
         elif delta:
             self.kept_fds |= set(delta)
         if kind in ("FullscreenWindow", "CursorAwareWindow"):
-            if not after["cursor_visible"]:
+            if after["modes"] != before["modes"]:
+                _violate(self.res, "terminal_mode_left_changed", self.point,
+                         dict(where, before="autowrap=%s scroll_top=%s full_region=%s pen=%s" % before["modes"],
+                              after="autowrap=%s scroll_top=%s full_region=%s pen=%s" % after["modes"]))
+            if before["cursor_visible"] and not after["cursor_visible"]:
+                # (inside an enclosing window that hides the cursor, what an inner window leaves is the outer
+                # one's business: restore what entering changed)
                 _violate(self.res, "cursor_left_hidden", self.point, where)
             if after["active"] != before["active"]:
                 _violate(self.res, "alternate_screen_not_left", self.point, dict(where, active=after["active"]))
@@ -713,6 +752,14 @@ class _Exec:
         op = it["op"]
         if op == "noop":
             return
+        if op == "toggle_echo":
+            # the application itself changes the tty mode between two uses of a context object
+            at = kernel.tcgetattr(s.fd)
+            at[3] ^= _termios.ECHO
+            kernel.tcsetattr(s.fd, _termios.TCSANOW, at)
+            self.echo_toggles = getattr(self, "echo_toggles", 0) + 1
+            world.probe("app_changed_tty_mode")
+            return
         if op == "toggle_nonblock":
             # the application itself flips O_NONBLOCK on the stream (contexts must restore what THEY changed,
             # relative to what they found when they were entered)
@@ -783,7 +830,7 @@ class _Exec:
             world.after(delay, "signal", int(_signal.SIGINT))
             world.fault("sigint_during_blocked_request")
         if self.crash.get("eio_at_send") == j:
-            kernel.read_faults.setdefault(s.fd, {})[s.tty.read_count + 1] = ("eio",)
+            kernel.read_faults.setdefault(s.fd, {})[s.tty.read_count + self.crash.get("eio_read", 1)] = ("eio",)
         try:
             try:
                 r = inp.send(it["timeout"])
@@ -792,6 +839,7 @@ class _Exec:
                     self.info["blocked_sends"].append(j)
                 if s.tty.read_count > reads0:
                     self.info["reading_sends"].append(j)
+                    self.info["reads_in_send"][str(j)] = s.tty.read_count - reads0
                 nb = bool(s.tty.flags & _os.O_NONBLOCK)
                 world.log.add("after_send", j, nb)
                 if nb and not nb_before:
@@ -856,7 +904,7 @@ def _run_one(p, keep_log):
                     "platform": cfg.get("platform")}, None, keep_log)
     world, term, kernel = s.world, s.term, s.kernel
     res = {"violation": None, "error": None, "probes": world.probes, "faults": world.faults,
-           "states": set(), "nsteps": 0, "info": {"blocked_sends": [], "reading_sends": []}}
+           "states": set(), "nsteps": 0, "info": {"blocked_sends": [], "reading_sends": [], "reads_in_send": {}}}
     try:
         # ---- arbitrary initial state ------------------------------------------------------
         for i in range(cfg["pre_lines"]):
@@ -934,6 +982,10 @@ def _run_one(p, keep_log):
             last["fds"] = [fd for fd in last["fds"] if fd not in ex.kept_fds]
             if getattr(ex, "toggles", 0) % 2:
                 first = dict(first, flags=first["flags"] ^ _os.O_NONBLOCK)      # (the application's own doing)
+            if getattr(ex, "echo_toggles", 0) % 2:
+                at0 = list(first["attrs"])
+                at0[3] ^= _termios.ECHO
+                first = dict(first, attrs=at0)
             for key in ("attrs", "flags", "wakeup_fd", "fds", "cursor_visible", "active"):
                 if last[key] != first[key]:
                     _violate(res, "final_state_differs_" + key, ex.point, {"before": first[key], "after": last[key]})
